@@ -123,8 +123,10 @@ fn self_calls(e: &Env, r: &Response) -> Vec<cosmwasm_std::Binary> {
         .collect()
 }
 
-fn run_wl(mut d: cosmwasm_std::DepsMut, e: Env, sender: &str, msg: WlMsg<Empty>, depth: u32) -> Result<Response, String> {
-    let r = cw1_whitelist::contract::execute(d.branch(), e.clone(), info(sender), msg).map_err(|x| x.to_string())?;
+fn run_wl(mut d: cosmwasm_std::DepsMut, e: Env, sender: &str, msg: WlMsg<Empty>, depth: u32, funds: Vec<Coin>) -> Result<Response, String> {
+    let mut i = info(sender);
+    i.funds = funds;
+    let r = cw1_whitelist::contract::execute(d.branch(), e.clone(), i, msg).map_err(|x| x.to_string())?;
     if depth != u32::MAX {
         for b in self_calls(&e, &r) {
             if depth >= MAX_SELF_DEPTH {
@@ -132,14 +134,16 @@ fn run_wl(mut d: cosmwasm_std::DepsMut, e: Env, sender: &str, msg: WlMsg<Empty>,
             }
             let inner: WlMsg<Empty> = cosmwasm_std::from_json(&b).map_err(|x| format!("self-call not parseable: {x}"))?;
             let me = e.contract.address.to_string();
-            run_wl(d.branch(), e.clone(), &me, inner, depth + 1)?;
+            run_wl(d.branch(), e.clone(), &me, inner, depth + 1, vec![])?;
         }
     }
     Ok(r)
 }
 
-fn run_sub(mut d: cosmwasm_std::DepsMut, e: Env, sender: &str, msg: SubMsg<Empty>, depth: u32) -> Result<Response, String> {
-    let r = cw1_subkeys::contract::execute(d.branch(), e.clone(), info(sender), msg).map_err(|x| x.to_string())?;
+fn run_sub(mut d: cosmwasm_std::DepsMut, e: Env, sender: &str, msg: SubMsg<Empty>, depth: u32, funds: Vec<Coin>) -> Result<Response, String> {
+    let mut i = info(sender);
+    i.funds = funds;
+    let r = cw1_subkeys::contract::execute(d.branch(), e.clone(), i, msg).map_err(|x| x.to_string())?;
     if depth != u32::MAX {
         for b in self_calls(&e, &r) {
             if depth >= MAX_SELF_DEPTH {
@@ -147,7 +151,7 @@ fn run_sub(mut d: cosmwasm_std::DepsMut, e: Env, sender: &str, msg: SubMsg<Empty
             }
             let inner: SubMsg<Empty> = cosmwasm_std::from_json(&b).map_err(|x| format!("self-call not parseable: {x}"))?;
             let me = e.contract.address.to_string();
-            run_sub(d.branch(), e.clone(), &me, inner, depth + 1)?;
+            run_sub(d.branch(), e.clone(), &me, inner, depth + 1, vec![])?;
         }
     }
     Ok(r)
@@ -159,6 +163,8 @@ pub struct Proxy {
     /// deliver messages the proxy relays to ITSELF (WasmMsg::Execute to its own address) inside the same
     /// transaction, with the proxy as sender, as a chain would; a failing inner call fails the whole call
     pub dispatch_self: bool,
+    /// native coins attached to the next calls (MessageInfo.funds)
+    pub attach: Vec<Coin>,
 }
 
 impl Proxy {
@@ -169,7 +175,7 @@ impl Proxy {
         let (fb, fs) = rng.far_future();
         w.advance(fb, fs);
         w.block.time = w.block.time.plus_nanos(rng.below(1_000_000_000));
-        Proxy { w, kind, dispatch_self: false }
+        Proxy { w, kind, dispatch_self: false, attach: vec![] }
     }
 
     pub fn instantiate(&mut self, admins: Vec<String>, mutable: bool) -> Res<Response> {
@@ -195,7 +201,8 @@ impl Proxy {
                     _ => return Res::Err("not a whitelist message".into()),
                 };
                 let ds = self.dispatch_self;
-                self.w.tx(|d, e| run_wl(d, e, sender, msg, if ds { 0 } else { u32::MAX }))
+                let funds = self.attach.clone();
+                self.w.tx(|d, e| run_wl(d, e, sender, msg, if ds { 0 } else { u32::MAX }, funds))
             }
             Kind::Subkeys => {
                 let msg: SubMsg<Empty> = match op.clone() {
@@ -218,7 +225,8 @@ impl Proxy {
                     },
                 };
                 let ds = self.dispatch_self;
-                self.w.tx(|d, e| run_sub(d, e, sender, msg, if ds { 0 } else { u32::MAX }))
+                let funds = self.attach.clone();
+                self.w.tx(|d, e| run_sub(d, e, sender, msg, if ds { 0 } else { u32::MAX }, funds))
             }
         }
     }
@@ -501,14 +509,14 @@ pub fn gen_msg(rng: &mut Rng, anchors: &BTreeMap<String, u128>, time_ns: u64) ->
             channel_id: "channel-1".into(),
             to_address: "remote".into(),
             amount: coin(rng.below(50) as u128, "uatom"),
-            timeout: IbcTimeout::with_timestamp(Timestamp::from_nanos(time_ns + 1000)),
+            timeout: IbcTimeout::with_timestamp(Timestamp::from_nanos(time_ns.saturating_add(1000))),
             memo: None,
         }
         .into(),
         20 => IbcMsg::SendPacket {
             channel_id: "channel-1".into(),
             data: Binary::from(vec![1, 2, 3]),
-            timeout: IbcTimeout::with_timestamp(Timestamp::from_nanos(time_ns + 1000)),
+            timeout: IbcTimeout::with_timestamp(Timestamp::from_nanos(time_ns.saturating_add(1000))),
         }
         .into(),
         21 => GovMsg::Vote {
